@@ -46,24 +46,26 @@ import (
 	"strings"
 )
 
-// owner-only messages named by property C20 (fixed list; rows get `ownerOnly := true`)
-var guardOwnerOnly = map[string]bool{
-	"rollapp.MsgUpdateRollappInformation": true, "rollapp.MsgTransferOwnership": true,
-	"rollapp.MsgAddApp": true, "rollapp.MsgUpdateApp": true, "rollapp.MsgRemoveApp": true,
-	"sequencer.MsgUpdateSequencerInformation": true, "sequencer.MsgUpdateRewardAddress": true,
-	"sequencer.MsgUpdateWhitelistedRelayers": true, "sequencer.MsgUpdateOptInStatus": true,
-	"sequencer.MsgUnbond": true, "sequencer.MsgDecreaseBond": true, "sequencer.MsgIncreaseBond": true,
-	"lockup.MsgBeginUnlocking": true, "lockup.MsgExtendLockup": true, "lockup.MsgForceUnlock": true,
-	"dymns.MsgTransferDymNameOwnership": true, "dymns.MsgSetController": true,
-	"dymns.MsgUpdateResolveAddress": true, "dymns.MsgUpdateDetails": true,
-	"dymns.MsgPlaceSellOrder": true, "dymns.MsgCancelSellOrder": true,
-	"dymns.MsgAcceptBuyOrder": true, "dymns.MsgCancelBuyOrder": true, "dymns.MsgRegisterAlias": true,
-	"eibc.MsgUpdateDemandOrder": true, "eibc.MsgDeleteOnDemandLP": true,
-	"iro.MsgEnableTrading": true, "iro.MsgClaimVested": true,
-}
+// ownerOnly is DERIVED (no list of names): a row is owner-only when the handler — followed through
+// same-package calls and Before… hooks — compares the signer field with something that is neither
+// the keeper authority nor a literal (the stored owner / creator / buyer / controller / proposer of
+// the object the message targets), or when the first thing it does with the signer is a same-package
+// lookup keyed by it (the signer's own sequencer, vote, …) in a handler that is not a `Create…`.
+// Every rpc method of every x/*/types Msg service gets a row; `rpcMethods` counts the methods of the
+// service descriptors by an independent textual scan so that a dropped row is visible in Lean.
 
 var writeLike = regexp.MustCompile(`^(Set|Remove|Delete|Save|Store|Send|Mint|Burn|Delegate|Undelegate|Transfer|Move|Charge|Create|Lock|Unlock|Refund|Slash|Jail|Punish|HardFork|Append|Insert|Push|Clear|Prune|Finalize|Fulfill|Write)`)
 var lookupLike = regexp.MustCompile(`^(Get|Real|MustGet|TryGet|Find)`)
+var hookLike = regexp.MustCompile(`^(Before)[A-Z]`)
+
+// pure conversions / validations of the signer string: not "the first call that receives the signer"
+var converterLike = regexp.MustCompile(`^(MustAccAddressFromBech32|AccAddressFromBech32|ValidateBasic|Validate|String|Sprintf|Errorf|Wrapf|Wrap|UnwrapSDKContext|NewAttribute|Info|Debug|Error)$`)
+
+type xfunc struct {
+	mod string
+	pkg *gpkg
+	fd  *ast.FuncDecl
+}
 
 // ---- minimal protobuf wire reader (for FileDescriptorProto) -------------------------------
 
@@ -257,11 +259,12 @@ type guardRes struct {
 }
 
 type ganalyzer struct {
-	pkg        *gpkg
-	msgMethods map[string]bool // methods of the message type that read the signer field
-	signerSel  []string        // Go selector path of the signer field, e.g. ["Owner"] or ["Lp","FundsAddr"]
-	res        *guardRes
-	firstLook  string
+	pkg           *gpkg
+	msgMethods    map[string]bool // methods of the message type that read the signer field
+	signerSel     []string        // Go selector path of the signer field, e.g. ["Owner"] or ["Lp","FundsAddr"]
+	res           *guardRes
+	hooks         map[string][]xfunc // Before… methods of every x/*/keeper package
+	firstLook     string
 	sawSignerCall bool
 }
 
@@ -342,6 +345,14 @@ func lastResultNonNil(body *ast.BlockStmt) bool {
 	switch s := body.List[len(body.List)-1].(type) {
 	case *ast.ReturnStmt:
 		if len(s.Results) == 0 {
+			// naked return with named results: `err = <non-nil>; return`
+			if len(body.List) >= 2 {
+				if as, ok := body.List[len(body.List)-2].(*ast.AssignStmt); ok && len(as.Lhs) == 1 && len(as.Rhs) == 1 {
+					if id, ok := as.Lhs[0].(*ast.Ident); ok && id.Name == "err" && !isLiteralish(as.Rhs[0]) {
+						return true
+					}
+				}
+			}
 			return false
 		}
 		if id, ok := s.Results[len(s.Results)-1].(*ast.Ident); ok && id.Name == "nil" {
@@ -422,9 +433,12 @@ func callName(c *ast.CallExpr) (name string, bare bool) {
 	return "", false
 }
 
-func (a *ganalyzer) resolve(c *ast.CallExpr) *ast.FuncDecl {
+func (a *ganalyzer) resolve(c *ast.CallExpr, self *ast.FuncDecl) *ast.FuncDecl {
 	name, _ := callName(c)
 	for _, fd := range a.pkg.funcs[name] {
+		if fd == self { // msgServer.Foo calling Keeper.Foo: same name, same arity
+			continue
+		}
 		n := len(paramNames(fd))
 		if n == len(c.Args) || (fd.Type.Params.NumFields() > 0 && isVariadic(fd) && len(c.Args) >= n-1) {
 			return fd
@@ -594,7 +608,7 @@ func (a *ganalyzer) calls(e ast.Node, fd *ast.FuncDecl, en *genv, depth int, nes
 		if name == "" {
 			continue
 		}
-		callee := a.resolve(c)
+		callee := a.resolve(c, fd)
 		if callee != nil && callee != fd && depth < 3 {
 			// bind parameters
 			ps := paramNames(callee)
@@ -617,9 +631,23 @@ func (a *ganalyzer) calls(e ast.Node, fd *ast.FuncDecl, en *genv, depth int, nes
 					passes = true
 				}
 			}
-			if passes && !a.sawSignerCall {
+			// a same-package helper that merely forwards the signer is looked into, not judged by name;
+			// a same-package LOOKUP keyed by the signer is what makes a handler `self`
+			onlySigner := true // keyed by the signer alone: every argument but the context depends on it
+			for j, arg := range c.Args {
+				if id, ok := arg.(*ast.Ident); ok && j == 0 && (id.Name == "ctx" || id.Name == "goCtx") {
+					continue
+				}
+				if !a.mentions(arg, en) {
+					onlySigner = false
+				}
+			}
+			if passes && !a.sawSignerCall && lookupLike.MatchString(name) && !onlySigner {
+				a.sawSignerCall = true // a lookup of something else that merely receives the signer
+			}
+			if passes && !a.sawSignerCall && lookupLike.MatchString(name) {
 				a.sawSignerCall = true
-				if lookupLike.MatchString(name) && len(a.res.preWrites) == 0 {
+				if len(a.res.preWrites) == 0 {
 					a.firstLook = name
 				}
 			}
@@ -628,17 +656,50 @@ func (a *ganalyzer) calls(e ast.Node, fd *ast.FuncDecl, en *genv, depth int, nes
 			}
 			continue
 		}
+		// hooks: `k.hooks.BeforeXxx(ctx, msg.Signer, …)` dispatches through an interface to the other
+		// modules' keepers; every implementation `BeforeXxx` with the same arity in any x/*/keeper is
+		// analysed with the signer-dependence of the arguments (a guard in one of them guards the handler)
+		if callee == nil && hookLike.MatchString(name) && depth < 3 {
+			if _, isSel := c.Fun.(*ast.SelectorExpr); isSel {
+				tainted := false
+				for _, arg := range c.Args {
+					if a.mentions(arg, en) {
+						tainted = true
+					}
+				}
+				if tainted {
+					for _, xf := range a.hooks[name] {
+						ps := paramNames(xf.fd)
+						if len(ps) != len(c.Args) || xf.pkg == a.pkg {
+							continue
+						}
+						cen := &genv{msg: map[string]bool{}, tainted: map[string]bool{}}
+						for j, arg := range c.Args {
+							if a.mentions(arg, en) {
+								cen.tainted[ps[j]] = true
+							}
+						}
+						savedPkg := a.pkg
+						a.pkg = xf.pkg
+						found := a.walk(xf.fd, cen, depth+1, nest)
+						a.pkg = savedPkg
+						if found {
+							a.res.where = xf.mod + "." + a.res.where
+							return true
+						}
+					}
+				}
+			}
+		}
 		// unresolved / external / depth limit: judge by name
 		if writeLike.MatchString(name) {
 			a.res.preWrites = append(a.res.preWrites, name)
 		}
-		if !a.sawSignerCall {
+		if !a.sawSignerCall && !converterLike.MatchString(name) {
 			for _, arg := range c.Args {
 				if a.mentions(arg, en) {
+					// an external call (bank, account keeper, another module) is no "own object" lookup
 					a.sawSignerCall = true
-					if lookupLike.MatchString(name) && len(a.res.preWrites) == 0 {
-						a.firstLook = name
-					}
 					break
 				}
 			}
@@ -651,7 +712,7 @@ func (a *ganalyzer) calls(e ast.Node, fd *ast.FuncDecl, en *genv, depth int, nes
 
 type guardRow struct {
 	key, service, method, signer, handler string
-	hasAuth, ownerOnly                    bool
+	hasAuth, ownerOnly, govOnly           bool
 	res                                   guardRes
 	legacy                                bool
 }
@@ -663,6 +724,49 @@ func genGuards(repo string) (string, []string, error) {
 	sort.Strings(mods)
 	var rows []guardRow
 	svcRe := regexp.MustCompile(`^_(\w+)_serviceDesc$`)
+	// Before… methods of every keeper package (hook implementations)
+	hooks := map[string][]xfunc{}
+	kpkgs := map[string]*gpkg{}
+	for _, mdir := range mods {
+		kp := loadDir(fset, filepath.Join(mdir, "keeper"))
+		kpkgs[mdir] = kp
+		for name, fds := range kp.funcs {
+			if !hookLike.MatchString(name) {
+				continue
+			}
+			for _, fd := range fds {
+				if fd.Recv != nil {
+					hooks[name] = append(hooks[name], xfunc{mod: filepath.Base(mdir), pkg: kp, fd: fd})
+				}
+			}
+		}
+	}
+	for name := range hooks {
+		sort.Slice(hooks[name], func(i, j int) bool { return hooks[name][i].mod < hooks[name][j].mod })
+	}
+	// rpc methods per service descriptor: independent textual scan of the generated files
+	type rpcCount struct {
+		key string
+		n   int
+	}
+	var rpcs []rpcCount
+	descRe := regexp.MustCompile(`(?s)var _(\w+)_serviceDesc = grpc\.ServiceDesc\{(.*?)\n\tStreams:`)
+	for _, mdir := range mods {
+		pbs, _ := filepath.Glob(filepath.Join(mdir, "types", "*.pb.go"))
+		sort.Strings(pbs)
+		for _, pb := range pbs {
+			src, err := os.ReadFile(pb)
+			if err != nil {
+				continue
+			}
+			for _, m := range descRe.FindAllStringSubmatch(string(src), -1) {
+				if m[1] == "Query" {
+					continue
+				}
+				rpcs = append(rpcs, rpcCount{filepath.Base(mdir) + "." + m[1], strings.Count(m[2], "MethodName:")})
+			}
+		}
+	}
 	for _, mdir := range mods {
 		mod := filepath.Base(mdir)
 		pbs, _ := filepath.Glob(filepath.Join(mdir, "types", "*.pb.go"))
@@ -734,7 +838,7 @@ func genGuards(repo string) (string, []string, error) {
 				}
 			}
 			if kp == nil {
-				kp = loadDir(fset, filepath.Join(mdir, "keeper"))
+				kp = kpkgs[mdir]
 				tp = loadDir(fset, filepath.Join(mdir, "types"))
 			}
 			for _, s := range svcs {
@@ -771,13 +875,17 @@ func genGuards(repo string) (string, []string, error) {
 						continue
 					}
 					row := guardRow{key: mod + "." + rt, service: s.name, method: mn}
-					row.ownerOnly = guardOwnerOnly[row.key]
+					row.govOnly = s.name != "Msg" // a governance service (ProposalMsg …)
 					for _, fl := range fields[rt] {
 						if fl == "Authority" {
 							row.hasAuth = true
+							row.govOnly = true
 						}
 					}
 					row.signer = signers[rt]
+					if strings.EqualFold(strings.Split(row.signer, ",")[0], "authority") {
+						row.govOnly = true // cosmos.msg.v1.signer names the authority
+					}
 					// fallback: GetSigners in types package
 					var selPath []string
 					if row.signer != "" {
@@ -854,7 +962,7 @@ func genGuards(repo string) (string, []string, error) {
 						continue
 					}
 					row.handler = recvTypeName(h.Recv.List[0].Type) + "." + mn
-					an := &ganalyzer{pkg: kp, msgMethods: mm, signerSel: selPath, res: &guardRes{kind: "none"}}
+					an := &ganalyzer{pkg: kp, msgMethods: mm, signerSel: selPath, res: &guardRes{kind: "none"}, hooks: hooks}
 					en := &genv{msg: map[string]bool{}, tainted: map[string]bool{}}
 					for _, p := range h.Type.Params.List {
 						if strings.HasSuffix(guardExprStr(fset, p.Type), "."+rt) {
@@ -869,6 +977,7 @@ func genGuards(repo string) (string, []string, error) {
 						}
 					}
 					row.res = *an.res
+					row.ownerOnly = row.res.kind == "owner" || (row.res.kind == "self" && !strings.HasPrefix(mn, "Create"))
 					rows = append(rows, row)
 				}
 			}
@@ -949,8 +1058,8 @@ func genGuards(repo string) (string, []string, error) {
 			sep = ""
 		}
 		kind := map[string]string{"authority": ".authority", "owner": ".owner", "self": ".self", "none": ".none", "govRouted": ".govRouted"}[r.res.kind]
-		fmt.Fprintf(&b, "  (%q, { id := %d, hasAuthorityField := %v, ownerOnly := %v, guard := %s, guardFirst := %v })%s\n",
-			r.key, i, r.hasAuth, r.ownerOnly, kind, r.res.first && r.res.kind != "none", sep)
+		fmt.Fprintf(&b, "  (%q, { id := %d, isMsg := %v, hasAuthorityField := %v, govOnly := %v, ownerOnly := %v, guard := %s, guardFirst := %v })%s\n",
+			r.key, i, !r.legacy, r.hasAuth, r.govOnly, r.ownerOnly, kind, r.res.first && r.res.kind != "none", sep)
 		detail := fmt.Sprintf("signer=%s handler=%s", r.signer, r.handler)
 		if r.res.other != "" {
 			detail += " compared-with=" + r.res.other + " in=" + r.res.where
@@ -991,6 +1100,14 @@ func genGuards(repo string) (string, []string, error) {
 		fmt.Fprintf(&b, "  (%q, %q)", r.key, path)
 	}
 	b.WriteString("\n]\n")
+	b.WriteString("\n/-- number of rpc methods of every non-Query gRPC service descriptor under x/*/types (textual scan of the\n    `_…_serviceDesc` literals, independent of the row construction above) -/\ndef rpcMethods : List (String × Nat) := [")
+	for i, r := range rpcs {
+		if i > 0 {
+			b.WriteString(", ")
+		}
+		fmt.Fprintf(&b, "(%q, %d)", r.key, r.n)
+	}
+	b.WriteString("]\n")
 	b.WriteString("\nend DymVerif.Gen.Guards\n")
 	if len(rows) == 0 {
 		return "", nil, fmt.Errorf("no Msg services found under %s/x", repo)
